@@ -155,6 +155,65 @@ theorem taiUtcAt_before_first {e : Int × Int} {l : List (Int × Int)} (hs : Sor
     have : e.1 * D < b.1 * D := Int.mul_lt_mul_of_pos_right this hD
     omega
 
+/-! ### `TaiUtc.get_last_next` -/
+
+theorem lastNextRev_cons_neg {e : Int × Int} {r : List (Int × Int)} {num : Int} {fut : Option (Int × Int)}
+    (h : ¬ e.1 * D ≤ num) : lastNextRev (e :: r) num fut = lastNextRev r num (some e) := by
+  simp [lastNextRev, h]
+
+theorem lastNextRev_cons_pos {e : Int × Int} {r : List (Int × Int)} {num : Int} {fut : Option (Int × Int)}
+    (h : e.1 * D ≤ num) : lastNextRev (e :: r) num fut = (some e, fut) := by
+  simp [lastNextRev, h]
+
+theorem lastNextRev_fst (l : List (Int × Int)) (num : Int) (fut : Option (Int × Int)) :
+    (lastNextRev l num fut).1 = l.find? (leapP num) := by
+  induction l generalizing fut with
+  | nil => rfl
+  | cons e r ih =>
+    by_cases h : e.1 * D ≤ num
+    · simp [lastNextRev_cons_pos h, h, leapP]
+    · simp [lastNextRev_cons_neg h, h, leapP, ih]
+
+/-- **`past` of `get_last_next` is the entry the lookup uses** (`TaiUtc.__getitem__`, `SimpleEopDatabase.tai_utc`) -/
+theorem lastNext_past (leap : List (Int × Int)) (num : Int) :
+    (lastNext leap num).1.map (·.2) = taiUtcAt leap num := by
+  rw [taiUtcAt_def, lastNext, lastNextRev_fst]
+
+theorem lastNextRev_skip (r rest : List (Int × Int)) (num : Int) (fut : Option (Int × Int))
+    (h : ∀ b ∈ r, num < b.1 * D) :
+    lastNextRev (r ++ rest) num fut = lastNextRev rest num (r.getLast?.or fut) := by
+  induction r generalizing fut with
+  | nil => simp
+  | cons a r ih =>
+    have ha : ¬ a.1 * D ≤ num := by have := h a (by simp); omega
+    have hr : ∀ b ∈ r, num < b.1 * D := fun b hb => h b (by simp [hb])
+    simp only [List.cons_append]
+    rw [lastNextRev_cons_neg ha, ih _ hr]
+    cases r with
+    | nil => simp
+    | cons b r' =>
+      cases hlast : (b :: r').getLast? with
+      | none => simp at hlast
+      | some x => simp [List.getLast?_cons_cons, hlast]
+
+/-- **file-order semantics of `get_last_next`**: `past` is the last entry with `date ≤ mjd`, `future` the entry that
+follows it in the file (none after the last entry) -/
+theorem lastNext_split {l r : List (Int × Int)} {e : Int × Int} {num : Int} (he : e.1 * D ≤ num)
+    (hr : ∀ b ∈ r, num < b.1 * D) : lastNext (l ++ e :: r) num = (some e, r.head?) := by
+  unfold lastNext
+  have : (l ++ e :: r).reverse = r.reverse ++ (e :: l.reverse) := by simp
+  rw [this, lastNextRev_skip _ _ _ _ (by simpa using hr), lastNextRev_cons_pos he]
+  simp
+
+/-- before the first entry: no `past`, `future` is the first entry -/
+theorem lastNext_before {leap : List (Int × Int)} {num : Int} (h : ∀ b ∈ leap, num < b.1 * D) :
+    lastNext leap num = (none, leap.head?) := by
+  unfold lastNext
+  have := lastNextRev_skip leap.reverse [] num none (by simpa using h)
+  simp only [List.append_nil] at this
+  rw [this]
+  simp [lastNextRev]
+
 theorem leapP_day (num : Int) : leapP num = leapP (num / D * D) := by
   funext e
   simp only [leapP, decide_eq_decide]
